@@ -174,6 +174,29 @@ fn compare<T: Debug + PartialEq + Default, E: Expect>(framework: &'static str, e
     PairResult { framework, expected, observed, outcome_class, shape, nontrivial, diffs, oracle_panic }
 }
 
+/// A transport that is not ready at once: `Pending` (with an immediate wake-up) before every item, as a socket
+/// on which the next piece has not arrived yet.
+struct Stutter<S> {
+    inner: S,
+    pend: bool,
+}
+impl<S: futures::Stream + Unpin> futures::Stream for Stutter<S> {
+    type Item = S::Item;
+    fn poll_next(mut self: std::pin::Pin<&mut Self>, cx: &mut std::task::Context<'_>) -> std::task::Poll<Option<S::Item>> {
+        if self.pend {
+            self.pend = false;
+            cx.waker().wake_by_ref();
+            return std::task::Poll::Pending;
+        }
+        self.pend = true;
+        std::pin::Pin::new(&mut self.inner).poll_next(cx)
+    }
+}
+/// pieces arrive late for every request delivered in an even number of pieces
+fn stutters(r: &JsonReq) -> bool {
+    r.chunks >= 2 && r.chunks % 2 == 0
+}
+
 fn guarded<R>(f: impl FnOnce() -> R) -> Result<R, String> {
     catch_unwind(AssertUnwindSafe(f)).map_err(|e| vcore::evidence::panic_text(&e))
 }
@@ -245,7 +268,7 @@ fn actix_parts(r: &JsonReq) -> (actix_web::HttpRequest, actix_web::dev::Payload)
         items.push(Err(actix_web::error::PayloadError::Incomplete(None)));
     }
     let stream: std::pin::Pin<Box<dyn futures::Stream<Item = Result<bytes::Bytes, actix_web::error::PayloadError>>>> =
-        Box::pin(futures::stream::iter(items));
+        if stutters(r) { Box::pin(Stutter { inner: futures::stream::iter(items), pend: true }) } else { Box::pin(futures::stream::iter(items)) };
     let payload = actix_web::dev::Payload::Stream { payload: stream };
     (req, payload)
 }
@@ -374,7 +397,11 @@ fn axum_request(r: &JsonReq) -> axum::extract::Request {
         if r.fail {
             items.push(Err(std::io::Error::new(std::io::ErrorKind::UnexpectedEof, "connection cut")));
         }
-        axum::body::Body::from_stream(futures::stream::iter(items))
+        if stutters(r) {
+            axum::body::Body::from_stream(Stutter { inner: futures::stream::iter(items), pend: true })
+        } else {
+            axum::body::Body::from_stream(futures::stream::iter(items))
+        }
     };
     let mut req = b.body(body).expect("generator: request");
     if let Cfg::Limit(n) = r.cfg {
